@@ -1,6 +1,7 @@
 // @id C01.k_calc
 // @engine B
 // @entry vfh_C01_k_calc
+// @shared_state_watch
 // @tier Q
 // @reach k_calc.returned
 // @funcs Phreeqc::k_calc
